@@ -267,3 +267,16 @@ Lemma local_emsg : forall h, local (dec_emsg h). Proof. unfold dec_emsg. locd. Q
 Lemma local_kind : forall h, local (dec_kind h). Proof. unfold dec_kind. locd. Qed.
 Lemma local_stsd : forall h, local (dec_stsd h). Proof. unfold dec_stsd. locd. Qed.
 Lemma local_dref : forall h, local (dec_dref h). Proof. unfold dec_dref. locd. Qed.
+
+(* stage 4 *)
+Lemma local_subsample w : local (rd_subsample w). Proof. unfold rd_subsample. loc. Qed.
+Lemma progress_subsample v : progress (rd_subsample (subs_w v)).
+Proof. unfold subs_w. destruct (v =? 1); intros a H; discriminate H. Qed.
+Lemma local_subs_entry v : local (rd_subs_entry (subs_w v)).
+Proof. unfold rd_subs_entry. loc; first [apply local_subsample|apply progress_subsample]. Qed.
+Lemma progress_subs_entry w : progress (rd_subs_entry w). Proof. intros a H. discriminate H. Qed.
+Lemma local_subs : forall h, local (dec_subs h).
+Proof. unfold dec_subs. intros h. loc; first [apply local_subs_entry|apply progress_subs_entry|apply progress_subsample|apply local_subsample]. Qed.
+Lemma progress_nalu : progress rd_nalu. Proof. intros a H. discriminate H. Qed.
+Lemma local_narr : local rd_narr.
+Proof. unfold rd_narr. loc; first [apply local_nalu|apply progress_nalu]. Qed.
